@@ -25,6 +25,8 @@ var keyPool = []string{
 	// keys with white space are keys like any other: nothing is trimmed on either side (a blank key must not become
 	// the empty key, which is what every malformed credential is reduced to)
 	" ", "%20", " k1-3f9a6c0d2b", "k2-77aa10c2ee%20",
+	// an entry that is not a URL (invalid escape): it is skipped, the entries around it are imported as always
+	"%zz-broken",
 }
 
 type keyEntry struct {
